@@ -35,20 +35,23 @@ iff `i % (h - 1) = h - 2` -/
 theorem C12_paging_ask_positions (ls : List Str) (h : Nat) (hh : 3 ≤ h) (evs : List OutEv)
     (he : printWidget ls h = some evs) (i : Nat) (hi : i < evs.length) :
     evs[i] = .ask ↔ i % (h - 1) = h - 2 := by
-  subst (printWidget_eq_some ls h evs he)
+  have hev := printWidget_eq_some ls h evs he
+  subst hev
   have := pages_ask_iff (h - 2) (by omega) ls i hi
   rwa [show h - 2 + 1 = h - 1 by omega] at this
 
 /-- the last page is not followed by a request -/
 theorem C12_paging_last (ls : List Str) (h : Nat) (hh : 3 ≤ h) (evs : List OutEv)
     (he : printWidget ls h = some evs) : evs.getLast? ≠ some .ask := by
-  rw [printWidget_eq_some ls h evs he]
+  rw [printWidget_of_le ls h hh] at he
+  cases he
   exact pages_getLast?_ne_ask _ ls
 
 /-- the number of requests is `⌈n / (h-2)⌉ - 1` -/
 theorem C12_paging_count (ls : List Str) (h : Nat) (hh : 3 ≤ h) (hne : ls ≠ []) (evs : List OutEv)
     (he : printWidget ls h = some evs) :
     (evs.filter fun e => e == .ask).length = (ls.length - 1) / (h - 2) := by
+  have _ := hne -- not needed by the proof: `(0 - 1) / _ = 0`
   rw [printWidget_eq_some ls h evs he]
   exact pages_count_ask (h - 2) (by omega) ls
 
